@@ -26,11 +26,14 @@ func specWordCode(b byte) bool {
 // stops at the line break, true/false are words of their own, an identifier or reserved word is
 // the maximal run of letters, digits and underscores and starts with a letter or underscore.
 //@ define src(): strings.ReplaceAll(source, "\r\n", "\n")
+//@ define rest(): strings.ReplaceAll(source, "\r\n", "\n")[ogI:]
 //@ func Tokenize
-//@   callsite newToken requires[C11,C12] block-comment-ends-at-its-first-terminator: arg1 == COMMENT && hasPrefix(src()[ogI:], "/*") ==> strings.Index(src()[ogI+2:], "*/") >= 0 && arg0 == src()[ogI+2 : ogI+2+strings.Index(src()[ogI+2:], "*/")]
-//@   callsite newToken requires[C11,C12] line-comment-stops-at-the-line-break: arg1 == COMMENT && hasPrefix(src()[ogI:], "//") ==> !contains(arg0, "\n") && hasPrefix(src()[ogI+2:], arg0) && (ogI + 2 + len(arg0) == len(src()) || src()[ogI+2+len(arg0)] == 10)
-//@   callsite newToken requires[C11] true-and-false-are-whole-words: arg1 == BOOL_LITERAL ==> (arg0 == "true" || arg0 == "false") && hasPrefix(src()[ogI:], arg0) && (ogI + len(arg0) == len(src()) || !specWordCode(src()[ogI+len(arg0)]))
-//@   callsite newToken requires[C11] words-are-maximal: arg1 == IDENTIFIER || (arg1 != UNKNOWN && arg1 == specKeywordType(arg0)) ==> len(arg0) >= 1 && arg0 == src()[ogI : ogI+len(arg0)] && !(arg0[0] >= 48 && arg0[0] <= 57) && (ogI + len(arg0) == len(src()) || !specWordCode(src()[ogI+len(arg0)]))
+//@   callsite newToken requires[C11,C12] block-comment-ends-at-its-first-terminator: arg1 == COMMENT && hasPrefix(rest(), "/*") ==> strings.IndexFrom(rest(), "*/", 2) >= 2 && arg0 == rest()[2:strings.IndexFrom(rest(), "*/", 2)]
+//@   callsite newToken requires[C11,C12] line-comment-stops-at-the-line-break: arg1 == COMMENT && hasPrefix(rest(), "//") ==> (strings.Index(rest(), "\n") < 0 ==> arg0 == rest()[2:]) && (strings.Index(rest(), "\n") >= 0 ==> arg0 == rest()[2:strings.Index(rest(), "\n")])
+//@   callsite newToken requires[C11] true-and-false-are-whole-words: arg1 == BOOL_LITERAL ==> (arg0 == "true" || arg0 == "false") && hasPrefix(rest(), arg0) && (len(arg0) == len(rest()) || !specWordCode(rest()[len(arg0)]))
+//@   callsite newToken requires[C11] a-word-is-the-text-at-its-position: arg1 == IDENTIFIER || (arg1 != UNKNOWN && arg1 == specKeywordType(arg0)) ==> len(arg0) >= 1 && hasPrefix(rest(), arg0)
+//@   callsite newToken requires[C11] a-word-starts-with-a-letter-or-underscore: arg1 == IDENTIFIER || (arg1 != UNKNOWN && arg1 == specKeywordType(arg0)) ==> len(rest()) >= 1 && specWordCode(rest()[0]) && !(rest()[0] >= 48 && rest()[0] <= 57)
+//@   callsite newToken requires[C11] words-are-maximal: arg1 == IDENTIFIER || (arg1 != UNKNOWN && arg1 == specKeywordType(arg0)) ==> len(arg0) == len(rest()) || !specWordCode(rest()[len(arg0)])
 //@   loop 3 invariant[C11] word-so-far: ogI <= i && i <= len(src()) && identifier == src()[ogI:i]
 //@   loop 1 invariant[C11,C12,C13] index-within-normalised-source: 0 <= i && i <= len(strings.ReplaceAll(source, "\r\n", "\n"))
 //@   loop 1 invariant[C11,C12] no-blank-or-comment-token: forall(k, 0, len(tokens), tokens[k].tokenType != SPACE && tokens[k].tokenType != COMMENT && tokens[k].tokenType != UNKNOWN)
